@@ -111,3 +111,22 @@ claim("C16", "DESIGN.md 5/C16", "Lean theorems over tables regenerated from the 
       "evaluation that every mapped name exists in both library sets (the two ScoreRange rows are the listed known finding, proved missing by scorerange_targets_missing). convertNode_spec, "
       "result_name_*, no_result_name_rejected, trigger, convert_mpilot_style state the translation rule. The model's whole pipeline (parse, convert, load) is compared with from_source on random EEMS 2.0 "
       "and mixed files; each file is also compared with the MPilot file written by hand from the mapping rule (structure and results with the real bodies).", XB)
+
+claim("C17", "DESIGN.md 5/C17", "Lean theorems on the column-reading logic + correspondence incl. a model of the csv reader/writer + order/type/mask/line oracles and bit-identity round trip",
+      "Theorems in MPilot.C17 over the records the csv reader yields: columnValues_spec (row order, blank records skipped), other_columns_irrelevant, invalid_value_line (a non-numeric cell "
+      "in the k-th record is reported on line k+2), csvRead_type_and_mask (element type; a cell is missing exactly when it equals the missing value after conversion to the element type). "
+      "The csv module is modelled (csvRows/csvField) and compared with the real one on every table; bit-identical write/read round trip of doubles rests on CPython's shortest repr and is "
+      "established by testing on the implementation only (subnormals, extremes, negative zero included). Known finding C17-F16: a missing cell is written as '--'.",
+      TB + "Integer columns holding numbers beyond int64 are outside the model (counted).")
+claim("C18", "DESIGN.md 5/C18", "Lean theorems on the command logic over an assumed dataset store + correspondence on generated NetCDF files + faithfulness oracles through the library",
+      "Partial by nature: netCDF4/HDF5 (storage, compression, fill values, attribute copying, CRS discovery) is assumed - 'what is assigned is what is read' - and only validated on generated "
+      "files. Theorems in MPilot.C18: unionMask_spec / ncWrite_spec (every variable keeps shape, element type and values; missing exactly where any result written together is missing), "
+      "read_default (float by default, faithful), read_missing_value_mask, read_positive_check, read_fuzzy_check, read_no_such_variable. The real EEMSRead/EEMSWrite are compared with the model "
+      "using the array the library actually delivers; files are inspected through the library itself (shape, kind, values, union mask, dimension variables, coordinate values, attributes).",
+      TB)
+claim("C19", "DESIGN.md 5/C19", "Lean theorems on the registry model + tables regenerated from the source (decide) + fresh-interpreter history correspondence + fresh-process twins",
+      "Theorems in MPilot.C19: lookup_congr (the lookup is a function of the registered entries under the requested libraries), register_outside_irrelevant / history_outside_irrelevant "
+      "(no history of definitions elsewhere changes it), no_prefix_capture (every offered command's module is a requested library or beneath one), lookup_perm (order of libraries), "
+      "duplicates_rejected. builtin_libraries_duplicate_free / readers_resolve_to_own_library / builtin_modules_under_libraries are re-proved by kernel evaluation against declarations "
+      "regenerated from the source on every run. Every history runs in a fresh interpreter and each final request is replayed first-thing in another fresh one.",
+      PB)
